@@ -13,7 +13,14 @@ Per run:
       matrices the implementation produced, (T) truncation error of the model against the proved closed forms at eps, eps/2,
       (P) the implementation against closed forms at eps and eps/2, (O) bootstrap order;
   (4) stream C  sum_chi2_ppf scalar vs array vs closed form;
-  (5) stream D  call histories sharing Godambe.cache against the same calls on an empty cache.
+  (5) stream D  call histories sharing Godambe.cache against the same calls on an empty cache;
+  (6) stream E  order and sequence type of the list arguments: LRT_adjust / Wald_stat / score_stat with the nested parameters listed
+      ascending, descending, rotated, with a repeated index, as list / array / tuple; full_params complete or as the nested values in
+      the caller's order; 1-3 nested parameters out of 3-5; multinom on/off; adj_and_org and plain; each against the closed form, the
+      exact model (H, J, cU in the caller's listing), exact linear algebra on (H, J) from the caller's own lists (Model wald_diff /
+      wald_stat / score_stat / lrt_adjust), and against the ascending listing (C19_*_order_invariant);  get_godambe / GIM_uncert /
+      FIM_uncert with p0 / bootstraps / grid points / theta adjusts as list, tuple, array and the theta adjusts re-paired with the
+      bootstraps;  fail-closed reading of the index handling in the three functions.
 """
 import json, math, os
 from fractions import Fraction
@@ -325,7 +332,7 @@ def gen_pois_case(rng, cid, fn=None, force=None):
     if fn in ('LRT_adjust', 'Wald_stat', 'score_stat'):
         if npar == 1 and not multinom:
             npar = 2
-        nn = rng.randint(1, max(1, npar - 1))
+        nn = force.get('nn') or rng.randint(1, max(1, npar - 1))
         nested = sorted(rng.sample(range(npar), nn))
     for attempt in range(200):
         Bs = [[lib.dyadic(rng, 0.25, 6, 2) for _ in range(nent)] for _ in range(npar)]
@@ -475,9 +482,11 @@ def pcase_text(c, r, inner, keep, full_aug):
             'pc_H := %s; pc_J := %s |}') % (qll(Bs_entry), b(c['multinom']), nest, b(inner['log']), ql(inner['p0']), q(inner['eps']),
                                             data, boots, qll(inner['H']), jt)
 
-def scase_text(kind, H, J, cU, d, vals):
-    return '{| sc_kind := %s; sc_H := %s; sc_J := %s; sc_cU := %s; sc_d := %s; sc_vals := %s |}' % (
-        nat(kind), qll(H), qll(J), ql(cU), ql(d), ql(vals))
+def scase_text(kind, H, J, cU, d, vals, theta=None, p0=(), idx=(), full=()):
+    return ('{| sc_kind := %s; sc_H := %s; sc_J := %s; sc_cU := %s; sc_d := %s; sc_vals := %s; '
+            'sc_theta := %s; sc_p0 := %s; sc_idx := %s; sc_full := %s |}') % (
+        nat(kind), qll(H), qll(J), ql(cU), ql(d), ql(vals),
+        'None' if theta is None else 'Some %s' % q(theta), ql(list(p0)), lib.natl(list(idx)), ql(list(full)))
 
 def relerr(a, bb, scale=None):
     """max |a - b| / max |b|   (or entrywise / scale when a scale is given)"""
@@ -492,16 +501,54 @@ def central_everywhere(c, inner):
     x = [math.log(v) for v in inner['p0']] if inner['log'] else inner['p0']
     return all((not step_rule_py(inner['eps'] / 2, v)[1]) for v in x)
 
-def run_pois_stream(ctx, base):
-    """base: generated ops.  Adds the eps/2 twin and (for some) the bootstrap-permuted twin of every op."""
+def relist_inner(c, r):
+    """LRT_adjust / Wald_stat / score_stat return scalars that do not depend on the order in which the nested parameters are listed
+    (Props/C19.v, C19_*_order_invariant), so the order in which get_godambe sees them is the implementation's business.  Where it
+    differs from the caller's, the recorded (p0, H, J, cU, G) are re-listed in the caller's order (sub_mat / select of the model);
+    every comparison then proceeds as if the call had been made in that order.  Returns True when something was re-listed."""
+    if not c.get('nested') or 'error' in r or not r.get('inner') or r.get('theta_opt') is None:
+        return False
+    full_aug = list(c['p0']) + ([r['theta_opt']] if c['multinom'] else [])
+    if any(ix >= len(full_aug) for ix in c['nested']):
+        return False
+    want = [full_aug[ix] for ix in c['nested']]
+    done = False
+    for inn in r['inner']:
+        got = inn.get('p0')
+        if got is None or len(got) != len(want) or got == want or relerr(got, want) <= 1e-12:
+            continue
+        pos, used = [], set()
+        for w in want:
+            cand = [a for a, g in enumerate(got) if a not in used and (g == w or abs(g - w) <= 1e-12 * max(abs(w), 1e-300))]
+            if not cand:
+                pos = None; break
+            pos.append(cand[0]); used.add(cand[0])
+        if pos is None:
+            continue
+        inn['relisted'] = pos
+        inn['p0'] = [got[a] for a in pos]
+        for kk in ('H', 'J', 'G'):
+            if inn.get(kk) is not None:
+                inn[kk] = [[inn[kk][a][bb] for bb in pos] for a in pos]
+        if inn.get('cU') is not None:
+            inn['cU'] = [inn['cU'][a] for a in pos]
+        done = True
+    return done
+
+def run_pois_stream(ctx, base, tag=''):
+    """base: generated ops.  Adds the eps/2 twin and (for some) the bootstrap-permuted twin of every op.
+    Flags of an op: no_l1 (the identical get_godambe call of another op goes to the exact model), perm_twin (True: always,
+    False: never), no_kind0.  Returns {id of the op: its evaluation} for the ops that ran."""
     rng = ctx.rng
     ops = []
+    evaluated = {}
     for c in base:
         c = dict(c); c['role'] = 'main'; c['base'] = c['id']
         ops.append(c)
         h = dict(c); h['eps'] = c['eps'] / 2; h['role'] = 'half'
         ops.append(h)
-        if len(c['boots']) >= 2 and rng.random() < 0.6:
+        want_perm = c.get('perm_twin')
+        if len(c['boots']) >= 2 and (want_perm if want_perm is not None else rng.random() < 0.6):
             perm = list(range(len(c['boots']))); rng.shuffle(perm)
             if perm == sorted(perm):
                 perm = perm[1:] + perm[:1]
@@ -511,8 +558,14 @@ def run_pois_stream(ctx, base):
             ops.append(pm)
     for k, o in enumerate(ops):
         o['id'] = k
+    import time
+    t_ = time.time()
     res = lib.run_impl('c19_impl.py', ops, timeout=2400)
+    ctx.notes.append('pois%s: %d implementation calls %.1fs' % (tag, len(ops), time.time() - t_))
     byid = {r['id']: r for r in res}
+    for o in ops:
+        if relist_inner(o, byid[o['id']]):
+            ctx.count('B.the implementation lists the nested parameters in another order internally (its matrices are re-listed in the caller\'s order before any comparison)')
     groups = {}
     for o in ops:
         groups.setdefault(o['base'], {})[o['role']] = o
@@ -528,6 +581,7 @@ def run_pois_stream(ctx, base):
             ctx.obligation('B%d %s runs' % (bid, c['fn']), False, 'predicate', rr['error'])
             report(ctx, 'B-error', 'Godambe.%s raised %s on a linear Poisson model' % (c['fn'], rr['error']),
                           data={'stream': 'pois', 'case': failed[0], 'impl': rr})
+            evaluated[bid] = {'c': c, 'error': rr['error']}
             continue
         if not r['boot_masks_equal']:
             raise RuntimeError('generator: bootstrap masks differ')
@@ -551,6 +605,8 @@ def run_pois_stream(ctx, base):
                 glue.append('eps/log not passed through')
             if (inn['adjusts'] or None) != (c.get('adjusts') or None) and not (inn['adjusts'] and all(a == 1.0 for a in inn['adjusts']) and not c.get('adjusts')):
                 glue.append('boot_theta_adjusts not passed through: %r' % (inn['adjusts'],))
+        if r.get('args_unchanged') is False:
+            glue.append('p0, nested_indices or full_params was modified in place')
         if c.get('also_plain') and 'val_plain' in r:
             if r['val_plain'] != r['val'][:len(r['val_plain'])]:
                 glue.append('plain return value differs from the adj_and_org/return_GIM one')
@@ -567,6 +623,7 @@ def run_pois_stream(ctx, base):
         order = 2 if central_everywhere(c, inner) else 1
         ctx.count('B.order=%d' % order)
         val_finite = finite(r.get('val') or []) and finite(byid[g['half']['id']].get('val') or [])
+        evaluated[bid] = {'c': c, 'r': r, 'cf': cf, 'order': order, 'val_finite': val_finite, 'keep': keep}
         # an O(eps^2) (central) or O(eps) (one-sided) perturbation of H may make an ill-conditioned matrix indefinite: NaN uncertainties
         # are a violation only where the allowed error times the condition number is small
         # (away from the optimum the exact observed information of a multinom model can itself be indefinite: closed form NaN too)
@@ -583,18 +640,20 @@ def run_pois_stream(ctx, base):
         # ---- L1: (H, J, cU) against the model over Q
         rh = byid[g['half']['id']]
         nlog = sum(1 for (cc, _, _) in pmeta.values() if cc['log'])
-        if c['log'] and nlog >= ctx.pick(3, 40):
+        if c.get('no_l1'):
+            pass
+        elif c['log'] and nlog >= ctx.pick(3, 40):
             ctx.count('B.log-mode case not sent to the exact model (cost cap)')
         else:
             k = len(pex)
             pex.append((k, pcase_text(c, r, inner, keep, full_aug)))
             pmeta[k] = (c, bid, 'main')
-        if not c['log'] and ctx.rng.random() < ctx.pick(0.15, 0.3):
+        if not c['log'] and not c.get('no_l1') and ctx.rng.random() < ctx.pick(0.15, 0.3):
             k = len(pex)
             pex.append((k, pcase_text(g['half'], rh, rh['inner'][0], keep, full_aug)))
             pmeta[k] = (g['half'], bid, 'half')
         # ---- T: truncation error of the model vs the proved closed forms (pure linear model, central branch)
-        if not c['multinom'] and not c['log'] and not c['nested'] and c['pclass'] == 'central' and not inner['just_hess'] and not c.get('B0') and len(tex) < ctx.pick(4, 60):
+        if not c['multinom'] and not c['log'] and not c['nested'] and c['pclass'] == 'central' and not inner['just_hess'] and not c.get('B0') and not c.get('no_t') and len(tex) < ctx.pick(4, 60):
             k = len(tex)
             tex.append((k, pcase_text(c, r, inner, keep, full_aug)))
             tmeta[k] = (c, bid)
@@ -602,12 +661,18 @@ def run_pois_stream(ctx, base):
         kindmap = {'GIM_uncert': 1, 'FIM_uncert': 2, 'LRT_adjust': 3, 'Wald_stat': 4, 'score_stat': 5}
         if cf['cond_chain'] < 1e6:
             Jm = inner.get('J') or []; cUm = inner.get('cU') or []
-            if not inner['just_hess']:
+            if not inner['just_hess'] and not c.get('no_kind0'):
                 k = len(sex); sex.append((k, scase_text(0, inner['H'], Jm, cUm, [], [x for row in inner['G'] for x in row]))); smeta[k] = (c, bid, 'godambe = H J^-1 H')
-            if c['fn'] in kindmap and val_finite:
+            if c['fn'] in kindmap and val_finite and not (c.get('no_kind4') and c['fn'] == 'Wald_stat'):
                 k = len(sex)
                 sex.append((k, scase_text(kindmap[c['fn']], inner['H'], Jm, cUm, c.get('diffs', []), r['val'])))
                 smeta[k] = (c, bid, c['fn'])
+            if c['fn'] == 'Wald_stat' and val_finite:
+                # the statistic from the caller's own lists (index list and full_params as passed): Model wald_diff + wald_stat
+                k = len(sex)
+                sex.append((k, scase_text(6, inner['H'], Jm, cUm, [], r['val'], theta=(r['theta_opt'] if c['multinom'] else None),
+                                          p0=c['p0'], idx=c['nested'], full=c['full_params'])))
+                smeta[k] = (c, bid, 'Wald_stat from (p0, nested_indices, full_params) as passed')
         else:
             ctx.count('B.ill-conditioned (statistics not compared)')
         # ---- P: implementation vs closed forms at eps and eps/2
@@ -667,7 +732,8 @@ def run_pois_stream(ctx, base):
                 report(ctx, 'B-boot-order', 'Godambe.%s depends on the order of the bootstraps: %r' % (c['fn'], diffs),
                               data={'stream': 'pois', 'case': g['perm'], 'impl': rp, 'impl_original_order': r})
     # ---- run the Coq sides
-    results = ctx.coq_cases('pois', HEADER_Q, pex, '(pcheck %s %s)' % (q(K_ABS), q(REL)),
+    ctx.notes.append('pois%s: python side %.1fs; %d L1, %d T, %d L2 cases' % (tag, time.time() - t_, len(pex), len(tex), len(sex))); t_ = time.time()
+    results = ctx.coq_cases('pois' + tag, HEADER_Q, pex, '(pcheck %s %s)' % (q(K_ABS), q(REL)),
                             'K=2^-40 x sum|ll terms|/(h_i h_j) + 1e-11 relative', shard=ctx.pick(2, 6), timeout=1800,
                             kind='B/L1: log2(|impl-model| / conditioning scale)')
     nbad = 0
@@ -680,7 +746,8 @@ def run_pois_stream(ctx, base):
             if nbad <= 3:
                 report(ctx, 'B-L1', 'get_godambe (called by %s) disagrees with the model in H, J or cU' % c['fn'],
                               data={'stream': 'pois', 'case': c, 'impl': byid[c['id']], 'coq': rr})
-    results = ctx.coq_cases('trunc', HEADER_Q, tex, '(tcheck %s)' % q(Fraction(C_MODEL)),
+    ctx.notes.append('pois%s: L1 in Coq %.1fs' % (tag, time.time() - t_)); t_ = time.time()
+    results = ctx.coq_cases('trunc' + tag, HEADER_Q, tex, '(tcheck %s)' % q(Fraction(C_MODEL)),
                             'err(eps) <= %g eps^2 x scale and err(eps/2) <= 0.3 err(eps)' % C_MODEL, shard=ctx.pick(1, 4), timeout=1800,
                             kind='B/T: log2(model truncation error / (eps^2 x scale))')
     for k, (c, bid) in tmeta.items():
@@ -688,7 +755,8 @@ def run_pois_stream(ctx, base):
         ok = rr is not None and rr[0]
         ctx.obligation('B%d model finite differences vs proved closed forms: O(eps^2), halving (exact arithmetic)' % bid, ok, 'correspondence',
                        '' if ok else 'coq: %r' % (rr,))
-    results = ctx.coq_cases('stat', HEADER_Q, sex, '(scheck %s)' % q(REL_STAT), '1e-8 relative (x2 for variances), cond(H) cond(J) cond(G) < 1e6', shard=ctx.pick(40, 150),
+    ctx.notes.append('pois%s: T in Coq %.1fs' % (tag, time.time() - t_)); t_ = time.time()
+    results = ctx.coq_cases('stat' + tag, HEADER_Q, sex, '(scheck %s)' % q(REL_STAT), '1e-8 relative (x2 for variances), cond(H) cond(J) cond(G) < 1e6', shard=ctx.pick(40 if not tag else 16, 150),
                             kind='B/L2: log2 relative error of statistics')
     nbad = 0
     for k, (c, bid, what) in smeta.items():
@@ -700,6 +768,8 @@ def run_pois_stream(ctx, base):
             if nbad <= 3:
                 report(ctx, 'B-L2', 'Godambe.%s: %s is not what the model computes from get_godambe\'s (H, J, cU)' % (c['fn'], what),
                               data={'stream': 'pois', 'case': c, 'impl': byid[c['id']], 'coq': rr})
+    ctx.notes.append('pois%s: L2 in Coq %.1fs' % (tag, time.time() - t_))
+    return evaluated
 
 C_ORDER2 = 60.0      # |stat(eps) - closed| <= C eps^2 (x condition number for the statistics); observed <= 12 eps^2 on the unchanged tree
 C_MODEL = 16
@@ -943,6 +1013,395 @@ def run_history_stream(ctx, histories):
             ctx.count('D.further histories with a stale cache hit')
 
 # ------------------------------------------------------------------------------------------------------
+# (6) stream E: order and container type of the list arguments
+#
+# LRT_adjust / Wald_stat / score_stat take the nested parameters as an index list (and Wald_stat optionally their values as a
+# second list): the statistics must not depend on the order in which the nested parameters are listed (Props/C19.v:
+# C19_wald_nested_order_irrelevant, C19_score_order_invariant, C19_lrt_adjust_order_invariant), whatever sequence type carries
+# the lists.  get_godambe / GIM_uncert / LRT_adjust pair boot_theta_adjusts with the bootstraps by position.
+
+ORDER_FAMILIES = [   # (parameters of the complex model, nested ones, multinom, class of one nested parameter, eps)
+    (3, 1, False, 'central', 0.01), (3, 2, True, 'central', 2.0 ** -7), (4, 2, False, 'central', 0.01),
+    (4, 3, True, 'central', 0.01), (5, 3, False, 'central', 2.0 ** -7), (5, 2, True, 'central', 0.01),
+    (4, 1, True, 'central', 0.05), (5, 3, True, 'zero', 0.01), (3, 2, False, 'tiny', 0.01)]
+L1_FAMILIES = (1, 2, 4, 8)      # quick tier: families whose last (non-ascending) listing goes to the exact model
+TUPLE_ERRORS = ('IndexError', 'TypeError')          # numpy reads a tuple as a multi-axis index (documented type: list)
+ARRAY_ADJ_ERRORS = ('ValueError',)                  # `if not boot_theta_adjusts` on an array (documented type: list)
+
+def listings(nn, thorough):
+    """orders in which nn nested parameters are listed: name -> positions in the ascending listing"""
+    out = [('ascending', list(range(nn)))]
+    if nn >= 2:
+        out.append(('descending', list(range(nn))[::-1]))
+    if nn >= 3:
+        out.append(('rotated', list(range(1, nn)) + [0]))
+        if thorough:
+            out += [('rotated twice', [2, 0, 1]), ('first two swapped', [1, 0, 2]), ('last two swapped', [0, 2, 1])]
+    return out
+
+def default_keep(c):
+    """entries the likelihood sums over: Spectrum masks the two corners (+ the case's extra mask)"""
+    nent = int(np.prod(c['shape']))
+    em = c.get('extra_mask') or [False] * nent
+    return [i for i in range(nent) if i not in (0, nent - 1) and not em[i]]
+
+def gen_order_family(rng, fi, npar, nn, multinom, pclass, eps, thorough):
+    for attempt in range(200):
+        base = gen_pois_case(rng, 0, fn='Wald_stat', force={'npar': npar, 'nn': nn, 'multinom': multinom, 'pclass': pclass, 'eps': eps})
+        for kk in ('full_params', 'diffs', 'also_plain', 'adjusts'):
+            base.pop(kk, None)
+        probe = dict(base, fn='LRT_adjust')
+        with np.errstate(all='ignore'):
+            cf = closed_forms(probe, None, default_keep(base))
+        distinct = len(set(base['p0'][ix] for ix in base['nested'])) == nn         # the listing get_godambe sees can then be read off its p0
+        if distinct and np.isfinite(cf['cond_chain']) and cf['cond_chain'] < (1e4 if fi < len(ORDER_FAMILIES) else 1e5) and bool(np.all(np.isfinite(cf['val']))):
+            break
+    else:
+        raise RuntimeError('order sweep: no well-conditioned family found')
+    S = base['nested']
+    mags = rng.sample([0.125, 0.25, 0.375, 0.5, 0.625, 0.75], nn)           # distinct magnitudes: a mispaired value shows
+    diffs = [m if rng.random() < 0.5 else -m for m in mags]
+    p0 = base['p0']
+    fp_full = list(p0)
+    for ix, d in zip(S, diffs):
+        fp_full[ix] = p0[ix] + d
+    adjusts = [lib.dyadic(rng, 0.75, 1.25, 4) for _ in base['boots']] if (not multinom and fi % 2 == 0) else None
+    cases, pairs, special = [], [], []
+    ring = {'nested': ['list', 'array'], 'fp': ['array', 'list', 'tuple']}
+    cnt = {'nested': fi, 'fp': fi}
+    def nxt(what):
+        cnt[what] += 1
+        return ring[what][cnt[what] % len(ring[what])]
+    def variant(oname, perm, call, **kw):
+        nested = [S[k] for k in perm]; dv = [diffs[k] for k in perm]
+        c = dict(base)
+        c.update({'nested': nested, 'nested_as': nxt('nested'), 'perm_twin': False, 'no_kind0': True,
+                  'sweep': {'family': fi, 'listing': oname, 'perm': perm, 'call': call}})
+        if call == 'LRT_adjust':
+            c['fn'] = 'LRT_adjust'
+            if adjusts:
+                c['adjusts'] = adjusts; c['adjusts_as'] = ['list', 'tuple'][fi // 2 % 2]
+        elif call == 'score_stat':
+            c['fn'] = 'score_stat'; c['also_plain'] = True
+        else:
+            c['fn'] = 'Wald_stat'; c['diffs'] = dv; c['also_plain'] = True; c['fp_as'] = nxt('fp')
+            c['full_params'] = list(fp_full) if call == 'Wald full' else [p0[ix] + d for ix, d in zip(nested, dv)]
+        c.update(kw)
+        return c
+    calls = ['LRT_adjust', 'score_stat', 'Wald full', 'Wald values']
+    lst = listings(nn, thorough)
+    ref = {}
+    for oname, perm in lst:
+        rep = None
+        for call in calls:
+            c = variant(oname, perm, call)
+            c['no_t'] = True; c['no_kind4'] = True      # kind 6 (from the caller's lists) subsumes kind 4 (from the difference vector)
+            if call == 'LRT_adjust' and adjusts:
+                c['no_kind0'] = False; c['no_l1'] = True        # theta adjusts give this call a J of its own (exact model: stream B)
+            elif rep is None:
+                # the other calls of this listing make the same get_godambe call; the exact model sees the last listing of each
+                # family (the ascending one is stream B's daily bread)
+                rep = c; c['no_kind0'] = False
+                c['no_l1'] = not ((thorough and oname != 'ascending') or (nn >= 2 and oname == lst[-1][0] and fi in L1_FAMILIES))
+            else:
+                c['no_l1'] = True
+                pairs.append(('same get_godambe call', rep, c))
+            cases.append(c)
+            if oname == 'ascending':
+                ref[call] = c
+            else:
+                pairs.append(('listing order', ref[call], c))
+    # full_params as the whole list and as the nested values only: the same statistic
+    for oname, perm in lst:
+        a = [c for c in cases if c['sweep']['listing'] == oname and c['sweep']['call'] == 'Wald full'][0]
+        bb = [c for c in cases if c['sweep']['listing'] == oname and c['sweep']['call'] == 'Wald values'][0]
+        pairs.append(('full_params complete / nested values only', a, bb))
+    # the index list as a tuple (every call, last listing) and with a repeated index (one call per family)
+    oname, perm = lst[-1]
+    for call in calls:
+        refc = [c for c in cases if c['sweep']['listing'] == oname and c['sweep']['call'] == call][0]
+        t = dict(refc); t['nested_as'] = 'tuple'; t['sweep'] = dict(refc['sweep'], special='tuple')
+        special.append(('tuple index list', refc, t))
+    call = calls[fi % 4]
+    refc = [c for c in cases if c['sweep']['listing'] == oname and c['sweep']['call'] == call][0]
+    rp = dict(refc); rp['nested_as'] = 'list'
+    rp['nested'] = list(refc['nested']) + [refc['nested'][0]]
+    if call == 'Wald values':
+        rp['full_params'] = list(refc['full_params']) + [refc['full_params'][0] + 0.5]
+        rp['diffs'] = list(refc['diffs']) + [refc['diffs'][0] + 0.5]
+    rp['sweep'] = dict(refc['sweep'], special='repeated')
+    special.append(('repeated index', refc, rp))
+    return cases, pairs, special
+
+def gen_container_family(rng, fi, npar, multinom, log, thorough):
+    """get_godambe / GIM_uncert / FIM_uncert: sequence types of p0, the bootstraps, the grid points and the theta adjusts;
+    theta adjusts against the order of the bootstraps"""
+    for attempt in range(200):
+        base = gen_pois_case(rng, 0, fn='GIM_uncert', force={'npar': npar, 'multinom': multinom, 'pclass': 'central', 'eps': 0.01})
+        if base['log'] != log:
+            continue
+        for kk in ('also_plain', 'adjusts', 'boots_as_arrays'):
+            base.pop(kk, None)
+        with np.errstate(all='ignore'):
+            cf = closed_forms(base, None, default_keep(base))
+        # (theta as an extra parameter scales the matrices badly: the sequence-type comparisons below do not depend on conditioning)
+        if bool(np.all(np.isfinite(cf['val']))) and np.isfinite(cf['cond_chain']) and (multinom or cf['cond_chain'] < 1e6):
+            break
+    else:
+        raise RuntimeError('container sweep: no well-conditioned family found')
+    nb = len(base['boots'])
+    adjusts = None
+    if not multinom:
+        pool = [0.75, 0.8125, 0.875, 0.9375, 1.0625, 1.125, 1.1875, 1.25]
+        adjusts = rng.sample(pool, nb) if nb <= len(pool) else [rng.choice(pool) for _ in range(nb)]
+    cases, pairs, special = [], [], []
+    def mk(fn, **kw):
+        c = dict(base); c['fn'] = fn; c['perm_twin'] = False; c['no_kind0'] = True; c['no_t'] = True
+        c['sweep'] = {'family': 100 + fi, 'call': fn}
+        if fn == 'FIM_uncert':
+            c['boots'] = []
+        elif adjusts and fn in ('GIM_uncert', 'get_godambe'):
+            c['adjusts'] = list(adjusts)
+        c.update(kw)
+        return c
+    for fn in ('GIM_uncert', 'FIM_uncert', 'get_godambe'):
+        if fn == 'get_godambe' and (multinom or log):
+            continue
+        refc = mk(fn, perm_twin=(fn != 'FIM_uncert'), no_kind0=False, no_l1=not thorough)      # bootstraps and their adjusts permuted together: perm twin
+        cases.append(refc)
+        combos = [('tuple', 'tuple', 'tuple', 'tuple'), ('array', 'list', 'list', 'tuple'), ('list', 'tuple', 'tuple', 'list')]
+        for p0_as, boots_as, pts_as, adj_as in (combos if thorough else combos[:2] if fn != 'get_godambe' else combos[:1]):
+            v = mk(fn, p0_as=p0_as, boots_as=boots_as, pts_as=pts_as, no_l1=True)
+            if 'adjusts' in v:
+                v['adjusts_as'] = adj_as
+            v['sweep'] = dict(v['sweep'], containers=[p0_as, boots_as, pts_as, adj_as])
+            cases.append(v); pairs.append(('sequence types of p0 / bootstraps / grid points / theta adjusts', refc, v))
+        if 'adjusts' in refc and nb >= 2:
+            # the adjusts alone rotated: another pairing, another (closed-form) answer
+            rot = mk(fn, no_l1=(fn != 'GIM_uncert' or log), no_kind0=False)
+            rot['adjusts'] = adjusts[1:] + adjusts[:1]
+            rot['sweep'] = dict(rot['sweep'], adjusts='rotated against the bootstraps')
+            cases.append(rot); pairs.append(('theta adjusts re-paired', refc, rot))
+            arr = mk(fn, adjusts_as='array'); arr['sweep'] = dict(arr['sweep'], special='array adjusts')
+            special.append(('array of theta adjusts', refc, arr))
+    return cases, pairs, special
+
+def value_of(ev):
+    r = ev['r']
+    if r.get('val') is not None:
+        return r['val']
+    inn = r['inner'][0]
+    return [x for row in inn['H'] for x in row] + ([x for row in inn.get('J', []) for x in row] if inn.get('J') else []) + list(inn.get('cU') or [])
+
+def roundoff_allowance(ev):
+    """relative size of the float differences two evaluation orders of the same stencils can show: ulp(ll) / h^2 against |H|, times cond"""
+    c, r, cf = ev['c'], ev['r'], ev['cf']
+    inner = r['inner'][0]
+    x = [math.log(v) for v in inner['p0']] if inner['log'] else inner['p0']
+    h = min(abs(float(step_rule_py(inner['eps'], v)[0])) for v in x)
+    Lmag = float(sum(abs(t) for t in r['g_data'])) + float(np.abs(cf['H']).max()) + float(sum(abs(t) for t in c['data']))
+    return (1e-9 + 4e-15 * (1 + Lmag) / h ** 2 / max(1e-300, float(np.abs(cf['H']).max()))) * max(1.0, cf['cond'])
+
+def describe(c):
+    sw = c.get('sweep', {})
+    bits = ['nested_indices=%r as %s' % (c['nested'], c.get('nested_as', 'list'))] if c.get('nested') is not None else []
+    if c.get('full_params') is not None:
+        bits.append('full_params=%r as %s' % (c['full_params'], c.get('fp_as', 'array')))
+    if sw.get('containers'):
+        bits.append('p0/boots/pts/adjusts as %s' % '/'.join(sw['containers']))
+    if c.get('adjusts') is not None:
+        bits.append('boot_theta_adjusts=%r' % (c['adjusts'],))
+    return 'Godambe.%s(multinom=%s, %s)' % (c['fn'], c['multinom'], ', '.join(bits))
+
+def check_pairs(ctx, pairs, ev):
+    for what, a, bb in pairs:
+        ea, eb = ev.get(a['id']), ev.get(bb['id'])
+        name = 'E %s: %s vs %s' % (what, describe(a), describe(bb))
+        ctx.count('E.pair: ' + what)
+        if ea is None or eb is None or 'error' in ea or 'error' in eb:
+            ctx.obligation(name, False, 'predicate', 'one of the two calls did not run: %r' % ((ea or {}).get('error'), (eb or {}).get('error')),)
+            if (ea is None or 'error' not in ea) and eb is not None and 'error' in eb:
+                report(ctx, 'E-error', '%s raised %s while %s works' % (describe(bb), eb['error'], describe(a)),
+                       data={'stream': 'order', 'mode': what, 'cases': [a, bb]})
+            continue
+        va, vb = value_of(ea), value_of(eb)
+        if not (finite(va) and finite(vb)):
+            ok = (finite(va) == finite(vb)) or not ea['val_finite'] or not eb['val_finite']
+            ctx.obligation(name, ok, 'predicate', 'non-finite: %r / %r' % (va, vb))
+            if not ok:
+                report(ctx, 'E-nonfinite', '%s is finite but %s is not' % (describe(a), describe(bb)), data={'stream': 'order', 'mode': what, 'cases': [a, bb]})
+            continue
+        if what == 'theta adjusts re-paired':
+            # non-vacuity of the positional pairing: the answer must move (each is separately held against its closed form and the model)
+            moved = relerr(vb, va) > 1e-6
+            ctx.count('E.theta adjusts re-paired: result %s' % ('differs (pairing is positional)' if moved else 'did not move'))
+            ctx.obligation(name + ' (the pairing matters)', moved, 'predicate', '' if moved else 'identical results for two pairings')
+            if not moved:
+                report(ctx, 'E-adjust-pairing', 'boot_theta_adjusts re-paired with the bootstraps leaves %s unchanged: the adjusts are not applied by position' % describe(a),
+                       data={'stream': 'order', 'mode': what, 'cases': [a, bb]})
+            continue
+        if what == 'same get_godambe call':
+            ia, ib = ea['r']['inner'][0], eb['r']['inner'][0]
+            err = max(relerr(ib[kk], ia[kk]) for kk in ('H', 'J', 'cU', 'p0'))
+            lim = 1e-12
+        else:
+            err = relerr(vb, va, ea['cf']['scale_score']) if a['fn'] == 'score_stat' else relerr(vb, va)
+            lim = 1e-12 if what.startswith(('sequence types', 'full_params')) else max(roundoff_allowance(ea), roundoff_allowance(eb))
+        ok = err <= lim
+        ctx.err('E: log2 relative difference between two listings / sequence types', int(math.floor(math.log2(max(err, 2.0 ** -80)))), 'roundoff allowance (1e-9 + 4e-15 |ll| / h^2 / |H|) x cond; 1e-12 for sequence types')
+        ctx.obligation(name, ok, 'predicate', '' if ok else '%r vs %r (relative difference %.3g > %.3g)' % (va, vb, err, lim))
+        if not ok:
+            if what == 'listing order':
+                msg = ('the statistic depends on the order in which the nested parameters are listed: %s = %r but %s = %r'
+                       % (describe(a), va, describe(bb), vb))
+            elif what == 'same get_godambe call':
+                msg = ('%s and %s should hand get_godambe the same problem but the matrices differ: p0 %r / %r, H %r / %r'
+                       % (describe(a), describe(bb), ia['p0'], ib['p0'], ia['H'], ib['H']))
+            else:
+                msg = '%s: %s = %r but %s = %r' % (what, describe(a), va, describe(bb), vb)
+            report(ctx, 'E-' + what, msg, data={'stream': 'order', 'mode': what, 'cases': [a, bb]})
+
+def check_special(ctx, special, ev):
+    """tuple index lists / array theta adjusts (not the documented types: an exception of numpy's is tolerated, a different number
+    is not) and repeated indices (model: singular, no value)"""
+    if not special:
+        return
+    ops = []
+    for k, (what, refc, v) in enumerate(special):
+        o = dict(v); o['id'] = k
+        ops.append(o)
+    res = lib.run_impl('c19_impl.py', ops, timeout=1200)
+    byid = {r['id']: r for r in res}
+    pex, pmeta = [], {}
+    for k, (what, refc, v) in enumerate(special):
+        r = byid[k]
+        er = ev.get(refc['id'])
+        name = 'E %s: %s' % (what, describe(v))
+        ctx.count('E.special: ' + what)
+        ctx.case(signature=('E', what, v['fn'], v['Bs'], repr(v['nested']), v.get('nested_as')), sample=None)
+        data = {'stream': 'order', 'mode': what, 'cases': [refc, v]}
+        if what == 'repeated index':
+            inn = (r.get('inner') or [{}])[0]
+            Hm = inn.get('H')
+            err_ok = 'error' in r and r['error'].startswith('LinAlgError')
+            zero_ok = Hm is not None and all(x == 0.0 for x in Hm[0]) and all(row[0] == 0.0 for row in Hm)
+            want_p = [(list(v['p0']) + ([r.get('theta_opt')] if v['multinom'] else []))[ix] for ix in v['nested']]
+            p_ok = inn.get('p0') is not None and len(inn['p0']) == len(want_p) and relerr(inn['p0'], want_p) <= 1e-12
+            ok = err_ok and zero_ok and p_ok
+            ctx.obligation(name + ': no value (LinAlgError), row and column of H at the shadowed position vanish', ok, 'correspondence',
+                           '' if ok else 'error=%r H=%r p0=%r' % (r.get('error'), Hm, inn.get('p0')))
+            if not ok:
+                got = r.get('error') or r.get('val')
+                report(ctx, 'E-repeated', '%s: the model (Props/C19.v C19_repeated_nested_index_singular) has a singular H and J and no value; '
+                       'the implementation gives %r' % (describe(v), got), data=dict(data, impl=r))
+            elif len(pex) < ctx.pick(2, 20):
+                keep = [i for i, mk in enumerate(r['mask']) if not mk]
+                full_aug = list(v['p0']) + ([r['theta_opt']] if v['multinom'] else [])
+                inner = {'H': Hm, 'p0': inn['p0'], 'eps': inn['eps'], 'log': False, 'just_hess': True, 'adjusts': None}
+                kk = len(pex)
+                pex.append((kk, pcase_text(v, r, inner, keep, full_aug))); pmeta[kk] = (v, r, data)
+            continue
+        allowed = TUPLE_ERRORS if what == 'tuple index list' else ARRAY_ADJ_ERRORS
+        if 'error' in r:
+            kind = r['error'].split(':')[0]
+            ok = kind in allowed
+            ctx.count('E.%s: raises %s' % (what, kind))
+            ctx.obligation(name + ': a value equal to the list call\'s, or numpy\'s %s' % '/'.join(allowed), ok, 'predicate', r['error'])
+            if not ok:
+                report(ctx, 'E-special-error', '%s raised %s (the same call with lists works)' % (describe(v), r['error']), data=dict(data, impl=r))
+            continue
+        ctx.count('E.%s: accepted' % what)
+        if er is None or 'error' in er:
+            ctx.obligation(name, False, 'predicate', 'reference call did not run')
+            continue
+        va = value_of(er); vb = r['val'] if r.get('val') is not None else value_of({'r': r})
+        ok = finite(va) == finite(vb) and (not finite(va) or relerr(vb, va) <= 1e-12)
+        ctx.obligation(name + ': a value equal to the list call\'s, or numpy\'s %s' % '/'.join(allowed), ok, 'predicate', '' if ok else '%r vs %r' % (vb, va))
+        if not ok:
+            report(ctx, 'E-special-value', '%s = %r but %s = %r' % (describe(v), vb, describe(refc), va), data=dict(data, impl=r))
+    results = ctx.coq_cases('sing', HEADER_Q, pex, '(pcheck_singular %s %s)' % (q(K_ABS), q(REL)),
+                            'K=2^-40 x sum|ll terms|/(h_i h_j) + 1e-11 relative; model Hessian singular', shard=1, timeout=1800,
+                            kind='E: log2(|impl-model| / conditioning scale), repeated index')
+    for kk, (v, r, data) in pmeta.items():
+        rr = results.get(kk)
+        ok = rr is not None and rr[0]
+        ctx.obligation('E repeated index: Hessian of %s = model (singular)' % describe(v), ok, 'correspondence', '' if ok else 'coq: %r' % (rr,))
+        if not ok:
+            report(ctx, 'E-repeated-L1', '%s: the Hessian computed before the failure is not the model\'s singular one' % describe(v), data=dict(data, impl=r, coq=rr))
+
+def nested_glue_obligations(ctx):
+    """fail-closed reading of the index handling in LRT_adjust / Wald_stat / score_stat (Model: scatter, select, wald_diff):
+    `nested_indices` is never rebound, it is the index of the scatter in diff_func, of p_nested and of the reduction of full_params,
+    and get_godambe receives (diff_func, p_nested)"""
+    import ast
+    try:
+        tree = ast.parse(open(GODAMBE).read())
+    except (SyntaxError, OSError) as e:
+        ctx.obligation('parse dadi/Godambe.py (nested index handling)', False, 'translator', str(e)); return
+    defs = {n.name: n for n in tree.body if isinstance(n, ast.FunctionDef)}
+    norm = lambda node: ast.unparse(node).replace(' ', '')
+    for fn in ('LRT_adjust', 'Wald_stat', 'score_stat'):
+        f = defs.get(fn)
+        if f is None:
+            ctx.obligation('Godambe.%s exists' % fn, False, 'translator'); continue
+        stmts = [norm(n) for n in ast.walk(f) if isinstance(n, (ast.Assign, ast.AugAssign))]
+        rebound = [n for n in ast.walk(f) if (isinstance(n, ast.Name) and n.id == 'nested_indices' and not isinstance(n.ctx, ast.Load))
+                   or (isinstance(n, ast.arg) and n.arg == 'nested_indices' and n not in f.args.args)]
+        want = ['p_nested=numpy.asarray(p0)[nested_indices]', 'full_params[nested_indices]=diff_params',
+                'full_params=numpy.array(p0,copy=True,dtype=float)']
+        if fn == 'Wald_stat':
+            want += ['full_params=numpy.asarray(full_params)[nested_indices]', 'param_diff=full_params-p_nested']
+        calls = [n for n in ast.walk(f) if isinstance(n, ast.Call) and norm(n.func) == 'get_godambe']
+        call_ok = len(calls) == 1 and len(calls[0].args) >= 5 and norm(calls[0].args[0]) == 'diff_func' and norm(calls[0].args[3]) == 'p_nested'
+        missing = [w for w in want if w not in stmts]
+        ok = not rebound and not missing and call_ok
+        ctx.obligation('Godambe.%s: nested_indices not rebound; it indexes the scatter of diff_func, p_nested%s; get_godambe(diff_func, .., p_nested, ..)'
+                       % (fn, ' and the reduction of full_params' if fn == 'Wald_stat' else ''), ok, 'translator',
+                       '' if ok else 'rebound=%d missing=%r call=%r' % (len(rebound), missing, call_ok))
+
+def run_order_stream(ctx):
+    rng = ctx.rng
+    thorough = not ctx.quick
+    fams = list(ORDER_FAMILIES)
+    if thorough:
+        for _ in range(16):
+            npar = rng.choice([3, 4, 5])
+            fams.append((npar, rng.randint(1, min(3, npar - 1)), rng.random() < 0.5, rng.choice(['central', 'central', 'zero', 'tiny']),      # (a negative parameter comes with a near-collinear spectrum: stream B)
+                         rng.choice([0.05, 0.01, 2.0 ** -7, 0.001])))
+    cases, pairs, special = [], [], []
+    for fi, fam in enumerate(fams):
+        cs, ps, sp = gen_order_family(rng, fi, *fam, thorough)
+        cases += cs; pairs += ps; special += sp
+        ctx.count('E.family npar=%d nested=%d %s %s' % (fam[0], fam[1], 'multinom' if fam[2] else 'explicit theta', fam[3]))
+    cfams = [(2, False, False), (3, True, False), (2, False, True)] + ([(3, False, False), (2, True, True), (4, False, False)] if thorough else [])
+    for fi, (npar, multinom, log) in enumerate(cfams):
+        cs, ps, sp = gen_container_family(rng, fi, npar, multinom, log, thorough)
+        cases += cs; pairs += ps; special += sp
+    for k, c in enumerate(cases):
+        c['id'] = 10000 + k
+    for c in cases:
+        sw = c.get('sweep', {})
+        if c.get('nested') is not None:
+            ctx.count('E.%s, %s listing, index list as %s' % (sw.get('call'), sw.get('listing'), c.get('nested_as')))
+        if c['fn'] == 'Wald_stat':
+            ctx.count('E.Wald_stat full_params as %s (%s)' % (c.get('fp_as'), 'complete' if len(c['full_params']) == len(c['p0']) else 'nested values'))
+    ev = run_pois_stream(ctx, cases, tag='_order')
+    check_pairs(ctx, pairs, ev)
+    check_special(ctx, special, ev)
+
+def replay_order(ctx, inp):
+    cases = [dict(c) for c in inp['cases']]
+    mode = inp.get('mode')
+    for k, c in enumerate(cases):
+        c['id'] = 10000 + k; c.pop('role', None); c.pop('base', None)
+    if mode in ('tuple index list', 'array of theta adjusts', 'repeated index'):
+        ev = run_pois_stream(ctx, cases[:1], tag='_order')
+        check_special(ctx, [(mode, cases[0], cases[1])], ev)
+    else:
+        ev = run_pois_stream(ctx, cases, tag='_order')
+        check_pairs(ctx, [(mode, cases[0], cases[1])], ev)
+
+# ------------------------------------------------------------------------------------------------------
 
 def run(ctx):
     ctx.rule = ('A: polynomial (constant + monomials a*p_k + a*p_k*p_l, dyadic coefficients) in 1-5 parameters; each parameter drawn from '
@@ -951,6 +1410,10 @@ def run(ctx):
                 'p0 central or with one zero/tiny/negative parameter, data and bootstraps = noisy means on a 1/4 grid, function in '
                 '{get_godambe,GIM_uncert,FIM_uncert,LRT_adjust,Wald_stat,score_stat} x multinom x log x nested subsets x theta adjusts; every op also at eps/2 and, '
                 'for 60%, with permuted bootstraps.  C: sum_chi2_ppf on scalars and arrays.  D: histories of 2-8 calls with 2-3 model functions on one cache. '
+                'E (every run, systematic): 9 families (npar 3-5, 1-3 nested, multinom on/off, one with a zero and one with a tiny nested parameter) x listings of the nested '
+                'indices {ascending, descending, rotated} x {LRT_adjust, score_stat, Wald_stat with complete full_params, Wald_stat with the nested values} x index list as '
+                '{list, array, tuple} x full_params as {array, list, tuple}, plus a repeated index per family; 3 families of get_godambe / GIM_uncert / FIM_uncert with '
+                'p0 / bootstraps / grid points / theta adjusts as list, tuple, array and theta adjusts rotated against the bootstraps (thorough: 16 more random families, all listings). '
                 'distinct = distinct generated input; non-trivial = every case (all have >= 1 parameter and evaluate >= 3 stencil points)')
     ctx.assumptions += [
         'float64 results are compared with the exact-rational model at K=2^-40 x (sum of |terms| of the function) / (h_i h_j) + 1e-11 relative: round-off of a second difference scales with 1/h^2',
@@ -958,6 +1421,10 @@ def run(ctx):
         'the O(eps^2) agreement with the closed forms is NOT proved: it is checked at eps and eps/2 (model in exact arithmetic: err <= %g eps^2 x scale and ratio <= 0.3; implementation: err <= %g eps^2 (x cond for statistics) and ratio <= 0.45 where the error is above round-off and below 0.1)' % (C_MODEL, C_ORDER2),
         'parameters on the one-sided branch (zero, tiny, negative; in log mode p <= 1) make the stencils first order: no closed-form agreement is required there, only correspondence with the model',
         'scipy.special.gammainc is the reference for the chi-square distribution function',
+        'order invariance of the statistics (Props/C19.v) is proved for matrices whose inverse certifies itself (A Ai = Ai A = 1 tested entry by entry); that the elimination finds the inverse of the re-listed matrix whenever it finds that of the original is not proved: evaluated on every case',
+        'the order in which get_godambe sees the nested parameters is not prescribed: where the implementation re-lists them, its (p0, H, J, cU) are put back in the caller\'s order before the comparisons (the returned statistics are compared as returned)',
+        'nested_indices as a tuple and boot_theta_adjusts as an array are outside the documented types (list): numpy\'s IndexError/TypeError/ValueError is tolerated there, a value different from the list call\'s is not',
+        'two listings of the same nested parameters run the same stencils in another order: their results may differ by round-off of size ulp(ll)/h^2, allowed as (1e-9 + 4e-15 |ll| / h^2 / |H|) x cond',
     ]
     ctx.trusted += ['harness/translate/stencil.py (symbolic execution of hessian_elem / get_grad / step-size loops into Coq terms; fail-closed)',
                     'numpy assembly in get_godambe (outer, dot, inv) and Spectrum masking are covered by execution only']
@@ -975,6 +1442,8 @@ def run(ctx):
             run_chi2_stream(ctx, replay_case=dict(inp['case'], op='chi2')); return
         if st == 'history':
             run_history_stream(ctx, [{'hid': 0, 'ops': inp['ops']}]); return
+        if st == 'order':
+            replay_order(ctx, inp); return
     import time
     t = time.time()
     translator_obligations(ctx); ctx.notes.append('translator %.1fs' % (time.time() - t)); t = time.time()
@@ -986,4 +1455,9 @@ def run(ctx):
         base.append(gen_pois_case(ctx.rng, k, fn=fn))
     run_pois_stream(ctx, base); ctx.notes.append('stream B %.1fs' % (time.time() - t)); t = time.time()
     run_chi2_stream(ctx)
-    run_history_stream(ctx, canonical_histories(ctx.rng) + [gen_history(ctx.rng, h) for h in range(ctx.pick(4, 60))]); ctx.notes.append('streams C, D %.1fs' % (time.time() - t))
+    run_history_stream(ctx, canonical_histories(ctx.rng) + [gen_history(ctx.rng, h) for h in range(ctx.pick(4, 60))]); ctx.notes.append('streams C, D %.1fs' % (time.time() - t)); t = time.time()
+    nested_glue_obligations(ctx)
+    run_order_stream(ctx); ctx.notes.append('stream E %.1fs' % (time.time() - t))
+    if os.environ.get('C19_TIMING'):
+        import sys
+        print('C19 timing: ' + '; '.join(ctx.notes), file=sys.stderr)
